@@ -8,6 +8,7 @@ import logging
 from typing import Any
 
 import aiofiles
+from marshmallow import ValidationError
 
 from .exceptions import PersistenceReadError, PersistenceWriteError
 from .model.node import Node, NodeSchema
@@ -43,9 +44,13 @@ class Persistence:
             raise PersistenceReadError(err) from err
 
         node_schema = NodeSchema()
-        for node_data in data.values():
-            node: Node = node_schema.load(node_data)
-            self.nodes[node.node_id] = node
+        try:
+            for node_data in data.values():
+                node: Node = node_schema.load(node_data)
+                self.nodes[node.node_id] = node
+        except (AttributeError, TypeError, ValidationError) as err:
+            # The file holds valid JSON of the wrong shape.
+            raise PersistenceReadError(err) from err
 
     async def save(self) -> None:
         """Save data."""
